@@ -62,5 +62,5 @@ FAMILIES = {
 
 BUDGET = {
     "quick": {"single": 6000, "flex": 400, "multi": 400, "election": 300, "lock": 2000},
-    "thorough": {"single": 300000, "flex": 20000, "multi": 20000, "election": 20000, "lock": 150000},
+    "thorough": {"single": 400000, "flex": 40000, "multi": 40000, "election": 20000, "lock": 200000},
 }
